@@ -7,7 +7,16 @@ VARIABLE l
 Judge(ok, tag, exp) == IF ok THEN TRUE ELSE PrintT(<<"MISMATCH", l, tag, ToJson(exp)>>)
 Drift(ok, tag, exp) == IF ok THEN TRUE ELSE PrintT(<<"DRIFT", l, tag, ToJson(exp)>>)
 
-AtomicEntries == {"s_store", "s_load"}
+AtomicEntries == {"s_store", "s_load", "r_store", "r_load", "g_store", "g_load"}
+StoreEntries == {"s_store", "r_store", "g_store"}
+
+\* ---- machine level (valgrind lackey): e.r.mach = << <<kind, offset from the guest location, size, instruction>> ... >>,
+\* the instructions that touched the n guest bytes during the call.  L = load, S = store, M = read-modify-write
+\* (a locked xchg is reported as L and M of ONE instruction).
+HasMach(e) == "mach" \in DOMAIN e.r
+Instrs(m) == {m[i][4] : i \in 1 .. Len(m)}
+KindsOf(m) == {m[i][1] : i \in 1 .. Len(m)}
+OneInstr(m, n) == Cardinality(Instrs(m)) = 1 /\ \A i \in 1 .. Len(m) : m[i][2] = 0 /\ m[i][3] = n
 Shape(acc) == [i \in 1 .. Len(acc) |-> IF acc[i].w = 0 THEN [w |-> 0, off |-> acc[i].goff, bulk |-> acc[i].bulk]
                                        ELSE [w |-> acc[i].w, off |-> acc[i].goff]]
 
@@ -19,12 +28,21 @@ TraceNext ==
            g == e.r.gres + 8
            lo == e.r.lres + 8 IN
        IF e.a.entry \in AtomicEntries
-       THEN Judge(e.r.res.k = (IF e.r.gres % n = 0 THEN "ok" ELSE "err") /\ Len(e.r.acc) = 0, "atomic_alignment",
-                  [expected |-> IF e.r.gres % n = 0 THEN "ok" ELSE "err"])
+       THEN /\ Judge(e.r.res.k = (IF e.r.gres % n = 0 THEN "ok" ELSE "err") /\ Len(e.r.acc) = 0, "atomic_alignment",
+                     [expected |-> IF e.r.gres % n = 0 THEN "ok" ELSE "err"])
+            \* machine level: one instruction of width n; a store requested SeqCst is a locked read-modify-write, a load a load
+            /\ Judge((HasMach(e) /\ e.r.gres % n = 0) =>
+                        /\ OneInstr(e.r.mach, n)
+                        /\ (IF e.a.entry \in StoreEntries THEN "M" \in KindsOf(e.r.mach) ELSE KindsOf(e.r.mach) = {"L"}),
+                     "machine_atomic", [expected |-> IF e.a.entry \in StoreEntries THEN "one locked read-modify-write" ELSE "one load"])
        ELSE /\ Judge(e.r.res.k = "ok", "panic", [res |-> e.r.res])
             \* C06: one access of width n touching the guest location, when both sides are aligned to n
             /\ Judge(IsSingle(n, lo, g) => (Len(e.r.acc) = 1 /\ e.r.acc[1].w = n /\ e.r.acc[1].goff = 0), "single",
                      [expected |-> <<[w |-> n, off |-> 0]>>])
+            \* machine level: the guest location is touched by exactly one instruction, of width n, in the right direction
+            /\ Judge((HasMach(e) /\ IsSingle(n, lo, g)) =>
+                        (OneInstr(e.r.mach, n) /\ KindsOf(e.r.mach) = (IF e.r.to_guest THEN {"S"} ELSE {"L"})),
+                     "machine_single", [expected |-> <<IF e.r.to_guest THEN "S" ELSE "L", 0, n>>])
             \* the full access sequence of the transcription: informational
             /\ Drift(Shape(e.r.acc) = Accesses(n, lo, g), "sequence", [expected |-> Accesses(n, lo, g)])
     /\ l' = l + 1
